@@ -16,6 +16,40 @@ pub enum WOp {
     AddBuffered { stream: u8, data: Vec<u8>, meta: u64 },
     Flush,
     SetRaw { stream: u8, raw: u64 },
+    /// `n` buffered additions of 1..6 distinct bytes each to pseudo-random streams (a large flush)
+    Burst { seed: u64, n: u16 },
+    /// one large part (around the 4 MiB write-buffer size), bytes generated from the seed
+    AddBig { stream: u8, seed: u64, len: u32, buffered: bool, meta: u64 },
+}
+
+/// Burst / AddBig are shorthand (keeps cases and replay files small); everything is checked on the expanded list
+fn expand_ops(ops: &[WOp]) -> Vec<WOp> {
+    let mut out = Vec::with_capacity(ops.len());
+    for op in ops {
+        match op {
+            WOp::Burst { seed, n } => {
+                let mut r = SplitMix::new(*seed);
+                for j in 0..*n {
+                    let stream = r.below(8) as u8;
+                    let len = 1 + r.below(6) as usize;
+                    let mut data = vec![(j >> 8) as u8, j as u8];
+                    data.extend((0..len).map(|_| r.next() as u8));
+                    out.push(WOp::AddBuffered { stream, data, meta: r.below(5) * (j as u64 + 1) });
+                }
+            }
+            WOp::AddBig { stream, seed, len, buffered, meta } => {
+                let mut r = SplitMix::new(*seed);
+                let mut data = Vec::with_capacity(*len as usize);
+                while data.len() < *len as usize {
+                    data.extend_from_slice(&r.next().to_le_bytes());
+                }
+                data.truncate(*len as usize);
+                out.push(if *buffered { WOp::AddBuffered { stream: *stream, data, meta: *meta } } else { WOp::Add { stream: *stream, data, meta: *meta } });
+            }
+            o => out.push(o.clone()),
+        }
+    }
+    out
 }
 
 #[derive(Clone, Debug, Hash, Serialize, Deserialize)]
@@ -53,8 +87,12 @@ pub fn check_in(ctx: &Ctx, case: &ArcCase) -> Report {
     if let Err(e) = w.open(&path) {
         return Report::fail(format!("cannot create archive: {}", e));
     }
-    for op in &case.ops {
+    let ops = expand_ops(&case.ops);
+    let mut max_flush = 0usize;
+    let mut big_part = false;
+    for op in &ops {
         match op {
+            WOp::Burst { .. } | WOp::AddBig { .. } => unreachable!(),
             WOp::Register(n) => {
                 let name = &case.names[*n as usize % case.names.len()];
                 let got = w.register_stream(name);
@@ -81,6 +119,7 @@ pub fn check_in(ctx: &Ctx, case: &ArcCase) -> Report {
                     return Report::fail(format!("add_part failed: {}", e));
                 }
                 model[s].parts.push((data.clone(), *meta));
+                big_part |= data.len() >= 4 << 20;
                 n_imm += 1;
                 if last_kind == 2 {
                     interleaved = true;
@@ -94,6 +133,8 @@ pub fn check_in(ctx: &Ctx, case: &ArcCase) -> Report {
                 let s = *stream as usize % model.len();
                 w.add_part_buffered(s, data.clone(), *meta);
                 buffered.entry(s).or_default().push((data.clone(), *meta));
+                max_flush = max_flush.max(buffered.values().map(|v| v.len()).sum());
+                big_part |= data.len() >= 4 << 20;
                 n_buf += 1;
                 if last_kind == 1 {
                     interleaved = true;
@@ -275,6 +316,9 @@ pub fn check_in(ctx: &Ctx, case: &ArcCase) -> Report {
         .label_if(big_meta, "meta>=2^32")
         .label_if(model.iter().any(|m| m.parts.is_empty()), "stream-without-parts")
         .label_if(case.ops.iter().filter(|o| matches!(o, WOp::Register(_))).count() > model.len(), "re-registration")
+        .label_if(max_flush > 20, "flush-of->20-buffered-parts")
+        .label_if(max_flush > 100, "flush-of->100-buffered-parts")
+        .label_if(big_part, "part>=4MiB(write-buffer-size)")
         .label_if(model.iter().any(|m| m.parts.iter().any(|p| p.0.len() >= 8192)), "part>=8k")
 }
 
@@ -397,6 +441,7 @@ fn strat() -> impl Strategy<Value = ArcCase> {
         4 => (0u8..8, data_strategy(), magnitude()).prop_map(|(stream, data, meta)| WOp::AddBuffered { stream, data, meta }),
         1 => Just(WOp::Flush),
         1 => (0u8..8, magnitude()).prop_map(|(stream, raw)| WOp::SetRaw { stream, raw }),
+        1 => (any::<u64>(), prop_oneof![2 => 15u16..40, 2 => 40u16..300, 1 => 300u16..1500]).prop_map(|(seed, n)| WOp::Burst { seed, n }),
     ];
     let rop = prop_oneof![
         3 => (0u8..8).prop_map(ROp::Next),
@@ -407,6 +452,28 @@ fn strat() -> impl Strategy<Value = ArcCase> {
     (names, prop::collection::vec(wop, 0..40), prop::collection::vec(rop, 0..30)).prop_map(|(mut names, ops, reads)| {
         names.dedup();
         ArcCase { names, ops, reads }
+    })
+}
+
+fn big_strat() -> impl Strategy<Value = ArcCase> {
+    const B: u32 = 4 << 20;
+    let small = prop_oneof![
+        2 => (0u8..4).prop_map(WOp::Register),
+        3 => (0u8..4, prop::collection::vec(any::<u8>(), 0..40), magnitude()).prop_map(|(stream, data, meta)| WOp::Add { stream, data, meta }),
+        3 => (0u8..4, prop::collection::vec(any::<u8>(), 0..40), magnitude()).prop_map(|(stream, data, meta)| WOp::AddBuffered { stream, data, meta }),
+        1 => Just(WOp::Flush),
+    ]
+    .boxed();
+    let len = prop_oneof![2 => Just(B - 1), 3 => Just(B), 2 => Just(B + 1), 2 => B..B + (2 << 20), 1 => (1u32 << 20)..B, 1 => Just(B - 9), 1 => Just(2 * B)];
+    let big = (0u8..4, any::<u64>(), len, any::<bool>(), magnitude()).prop_map(|(stream, seed, len, buffered, meta)| WOp::AddBig { stream, seed, len, buffered, meta }).boxed();
+    (prop::collection::vec("[a-z]{1,8}", 1..4), prop::collection::vec(small.clone(), 0..6), big.clone(), prop::collection::vec(small, 0..6), prop::option::weighted(0.3, big)).prop_map(|(mut names, mut a, b1, c, b2)| {
+        names.dedup();
+        let mut ops = vec![WOp::Register(0)];
+        ops.append(&mut a);
+        ops.push(b1);
+        ops.extend(c);
+        ops.extend(b2);
+        ArcCase { names, ops, reads: vec![] }
     })
 }
 
@@ -464,6 +531,10 @@ pub fn run(ctx: &Ctx, stats: &mut Stats) {
     let n = ctx.tier.pick(60_000, 1_000_000);
     let c2 = ctx.clone();
     run_prop(ctx, stats, "histories", n, strat(), &move |c: &ArcCase| check_in(&c2, c));
+    // parts around the size of the 4 MiB write buffer (immediate and buffered), between small parts
+    let nb = ctx.tier.pick(64, 800);
+    let c3 = ctx.clone();
+    run_prop(ctx, stats, "large-parts", nb, big_strat(), &move |c: &ArcCase| check_in(&c3, c));
     if ctx.tier == Tier::Thorough || std::env::var("VERIF_FUZZ").is_ok() {
         crate::fuzzing::run_stage(ctx, stats, "arc", ctx.tier.pick(100_000, 2_000_000));
     }
@@ -485,7 +556,7 @@ pub fn replay(ctx: &Ctx, stage: &str, case: &Value) -> Report {
 pub const INFO: PropInfo = PropInfo {
     id: "C13",
     level: "exploration",
-    rule: "cases = operation histories over {register_stream(name from a pool of 1..5 printable-ASCII names, so re-registration is frequent), add_part, add_part_buffered, flush_buffers, set_raw_size} (0..40 ops; data 0..64 kB; metadata and raw sizes at every byte-length boundary up to 2^64-1) followed by flush, close, reopen and a generated read script (sequential get_part, get_part_by_id in any order, out-of-range ids) plus a full sequential and a reverse random-access sweep. Oracle: a sequential model of the container (commit order: immediate at call time, buffered at the next flush by stream id then insertion order; empty parts read back as (empty, 0)) and an independent parser of the file's footer and parts. The integer codec is checked separately on every byte-length boundary and 4*10^5 random magnitudes against the format rule. Non-trivial history = >=2 streams, buffered and immediate additions interleaved, and an out-of-order read; distinct = distinct history.",
+    rule: "cases = operation histories over {register_stream(name from a pool of 1..5 printable-ASCII names, so re-registration is frequent), add_part, add_part_buffered, flush_buffers, set_raw_size} (0..40 ops, one of which may be a burst of 15..1500 small buffered additions to pseudo-random streams so that single flushes commit > 20, > 100 parts; data 0..64 kB; metadata and raw sizes at every byte-length boundary up to 2^64-1) followed by flush, close, reopen and a generated read script (sequential get_part, get_part_by_id in any order, out-of-range ids) plus a full sequential and a reverse random-access sweep. Oracle: a sequential model of the container (commit order: immediate at call time, buffered at the next flush by stream id then insertion order; empty parts read back as (empty, 0)) and an independent parser of the file's footer and parts. The integer codec is checked separately on every byte-length boundary and 4*10^5 random magnitudes against the format rule. Stage large-parts (64 quick / 800 thorough): one or two parts of 4 MiB -9/-1/0/+1 .. 8 MiB (the write-buffer size and beyond; immediate or buffered) between small parts, same oracle. Non-trivial history = >=2 streams, buffered and immediate additions interleaved, and an out-of-order read; distinct = distinct history.",
     assumptions: &["stream ids passed to add_part_buffered are registered ids (an unregistered id makes the later flush fail; outside the stated histories)", "files are small (offsets < 2^32); offset magnitudes up to 2^64-1 are covered by the integer-codec stage only"],
     needs_cli: false,
     needs_checked: false,
